@@ -14,17 +14,7 @@ pub struct NetWorld {
     pub listen: tokio::task::JoinHandle<std::io::Result<()>>,
 }
 
-fn free_port() -> std::io::Result<u16> {
-    // the endpoint listens on the same TCP and UDP port
-    for _ in 0..50 {
-        let l = std::net::TcpListener::bind("127.0.0.1:0")?;
-        let port = l.local_addr()?.port();
-        if std::net::UdpSocket::bind(("127.0.0.1", port)).is_ok() {
-            return Ok(port);
-        }
-    }
-    Err(std::io::Error::new(std::io::ErrorKind::AddrInUse, "no port free for both TCP and UDP"))
-}
+use super::proc::free_port;
 
 impl NetWorld {
     /// Start the endpoint of `spec` on a free loopback port (the spec's listen address is replaced).
